@@ -285,7 +285,8 @@ class Gen(object):
         if schema_ops and front == "segment" and rng.random() < 0.3:
             if rng.random() < 0.6 or not [f for f in fs if f.startswith("x") or f == "k"]:
                 self.nextra += 1
-                name = "x%d" % self.nextra
+                # (half of the names contain a character outside [A-Za-z0-9_]: per-field files carry the field name)
+                name = ("x-%d" if self.nextra % 2 else "x%d") % self.nextra
                 ops.append(["add_field", name, rng.choice(["kw", "text"])])
                 fs.add(name)
             else:
